@@ -1,14 +1,15 @@
 """C15 - name server operations are atomic under concurrent clients.
 
 Small sets of concurrent operations (2-3 threads x 1-2 ops on <= 2 shared names) run against NameServer(MemoryStorage)
-under the harness-owned scheduler (vlib.sched), which preempts at every source line of Pyro5/nameserver.py; the name
-server's lock is replaced by a scheduler-aware lock of the same kind (re-entrant or not).  Schedules: exhaustive up to
+under the harness-owned scheduler (vlib.sched), which preempts at every source line of Pyro5/nameserver.py; the locks the
+name server module creates are scheduler-aware locks of the same kind (re-entrant or not).  Schedules: exhaustive up to
 a bounded number of preemptions for a fixed catalogue of op-sets, then Hypothesis-generated op-sets and schedules.
 Oracle: linearizability against a map model (brute force over all orders consistent with call/return steps), the
 safe-register and remove-count corollaries, no internal error escapes, no deadlock.
 """
 import itertools
 import threading
+import types
 
 from hypothesis import strategies as st
 
@@ -24,7 +25,7 @@ RULE = ("a case = (op-set: 2-3 threads x 1-2 operations from {safe/unsafe regist
         "preempts a thread inside nameserver.py at least once; distinct = distinct (op-set, schedule)")
 ASSUMPTIONS = ["in-memory back-end only (sqlite blocks inside C code under a paused thread: artefact of serialising threads)",
                "preemption granularity is one source line of nameserver.py; dict operations of the storage are atomic (CPython GIL)",
-               "the lock object of the name server is replaced by a scheduler-aware lock of the same re-entrancy"]
+               "threading.Lock/RLock as seen by nameserver.py are replaced by scheduler-aware locks of the same re-entrancy (the server creates its own lock, whenever it does)"]
 
 URI1, URI2 = "PYRO:a@h:1", "PYRO:b@h:2"
 FILES = ("Pyro5/nameserver.py",)
@@ -97,11 +98,24 @@ def run_trial(opset, initial, preempt=None, choices=None):
     """-> (sched, records, final_state) ; records: list of (thread, op, call_step, return_step, result)"""
     from Pyro5 import nameserver
     sch = S.Sched(FILES, preempt=preempt, choices=choices)
-    ns = nameserver.NameServer(nameserver.MemoryStorage())
+    # every lock the name server module creates - whenever it creates it - is a scheduler-aware lock of the same kind
+    real_threading = nameserver.threading
+    shim = types.ModuleType("threading_shim")
+    shim.__dict__.update(real_threading.__dict__)
+    shim.RLock = lambda: S.SRLock(sch)
+    shim.Lock = lambda: S.SLock(sch)
+    nameserver.threading = shim
+    try:
+        return _run_trial(nameserver, sch, opset, initial)
+    finally:
+        nameserver.threading = real_threading
+
+
+def _run_trial(nameserver, sch, opset, initial):
+    storage = nameserver.MemoryStorage()
     for name in initial:
-        ns.register(name, URI1)
-    reentrant = not isinstance(ns.lock, type(threading.Lock()))
-    ns.lock = S.SRLock(sch) if reentrant else S.SLock(sch)
+        storage[name] = (URI1, None)            # pre-populated through the storage: the server object itself is untouched before the threads start
+    ns = nameserver.NameServer(storage)
     records = []
 
     def worker(tname, ops):
